@@ -68,7 +68,7 @@ theorem getItem_of_iter {fl : PyVal} {xs : List PyVal} (hd : fl.isDict = false)
 /-- what `checkFile` establishes about an entry of `info['files']` -/
 def EntryFacts (f : PyVal) : Prop :=
   ∃ e l len p comps, f = .dict e ∧ PyVal.lookupStr "length" e = some l ∧ isIntOrFloat l = true ∧
-    isFileLength l = true ∧ numVal? l = some len ∧ 0 ≤ len ∧ len.natAbs ≤ sumAbs l ∧
+    isFileLength l = true ∧ numVal? l = some len ∧ 0 ≤ len ∧
     PyVal.lookupStr "path" e = some p ∧ p.isIterable = true ∧ pyIter p = some comps ∧
     ∀ j, j < comps.length → ∃ v, getItem p (.i j) = .val v ∧ isStrOrBytes v = true
 
@@ -119,40 +119,37 @@ theorem checkFile_cases {items info : Items} {fl : PyVal}
     (hget : getItem fl (.i i) = .val fileinfo)
     (r : Except ErrKind Unit) (h : checkFile (.dict items) i fileinfo = r) :
     (r = .ok () → EntryFacts fileinfo) ∧
-    (∀ e, r = .error e → Small (.dict items) → e = .metainfo) := by
+    (∀ e, r = .error e → e = .metainfo) := by
   subst h
-  have hsf : Small (.dict items) → Small fl := fun hs =>
-    (hs.getItem (getItem_dict_s_some hinfo)).getItem (getItem_dict_s_some hfl)
   unfold checkFile
   rw [assertType_files hinfo hfl]
   cases h1 : assertFinal fl (.i i) { types := PyVal.isDict } with
   | error e1 =>
-    refine ⟨fun h => absurd h (by simp [bind, Except.bind]), fun e h hs => ?_⟩
+    refine ⟨fun h => absurd h (by simp [bind, Except.bind]), fun e h => ?_⟩
     simp only [bind, Except.bind, Except.error.injEq] at h
     subst h
-    exact assertFinal_i_err (hsf hs) h1
+    exact assertFinal_i_err h1
   | ok _ =>
     have hd := (assertFinal_ok h1).1 fileinfo hget
     obtain ⟨e, rfl⟩ := isDict_iff.mp (by simpa [passes] using hd)
-    have hse : Small (.dict items) → Small (.dict e) := fun hs => (hsf hs).getItem hget
     rw [assertType_entry hinfo hfl hget, assertType_entry hinfo hfl hget,
       assertType_entry hinfo hfl hget]
     cases h2 : assertFinal (.dict e) (.s "length") { types := isIntOrFloat, check := some isFileLength } with
     | error e2 =>
-      refine ⟨fun h => absurd h (by simp [bind, Except.bind]), fun e' h hs => ?_⟩
+      refine ⟨fun h => absurd h (by simp [bind, Except.bind]), fun e' h => ?_⟩
       simp only [bind, Except.bind, Except.error.injEq] at h
       subst h
-      exact assertFinal_dict_err (hse hs) h2
+      exact assertFinal_dict_err h2
     | ok _ =>
       obtain ⟨l, hl, hlp⟩ := (assertFinal_dict_ok h2).2 rfl
       simp only [passes, Bool.and_eq_true] at hlp
-      obtain ⟨len, hnum, hlen0, hlenle⟩ := numVal_of_fileLength hlp.1 hlp.2
+      obtain ⟨len, hnum, hlen0⟩ := numVal_of_fileLength hlp.1 hlp.2
       cases h3 : assertFinal (.dict e) (.s "path") { types := PyVal.isIterable } with
       | error e3 =>
-        refine ⟨fun h => absurd h (by simp [bind, Except.bind]), fun e' h hs => ?_⟩
+        refine ⟨fun h => absurd h (by simp [bind, Except.bind]), fun e' h => ?_⟩
         simp only [bind, Except.bind, Except.error.injEq] at h
         subst h
-        exact assertFinal_dict_err (hse hs) h3
+        exact assertFinal_dict_err h3
       | ok _ =>
         obtain ⟨p, hp, hpp⟩ := (assertFinal_dict_ok h3).2 rfl
         have hpi : p.isIterable = true := by simpa [passes] using hpp
@@ -160,24 +157,24 @@ theorem checkFile_cases {items info : Items} {fl : PyVal}
         cases h4 : assertFinal (.dict e) (.s "md5sum")
             { types := PyVal.isStr, mustExist := false, check := some isMd5sum } with
         | error e4 =>
-          refine ⟨fun h => absurd h (by simp [bind, Except.bind]), fun e' h hs => ?_⟩
+          refine ⟨fun h => absurd h (by simp [bind, Except.bind]), fun e' h => ?_⟩
           simp only [bind, Except.bind, Except.error.injEq] at h
           subst h
-          exact assertFinal_dict_err (hse hs) h4
+          exact assertFinal_dict_err h4
         | ok _ =>
           simp only [bind, Except.bind, getE_ok (getItem_dict_s_some hp), hie]
           constructor
           · intro h
-            refine ⟨e, l, len, p, comps, rfl, hl, hlp.1, hlp.2, hnum, hlen0, hlenle, hp, hpi, hcomps,
+            refine ⟨e, l, len, p, comps, rfl, hl, hlp.1, hlp.2, hnum, hlen0, hp, hpi, hcomps,
               fun j hj => ?_⟩
             have := forM_ok h j (List.mem_range.mpr hj)
             rw [assertType_comp hinfo hfl hget hp] at this
             obtain ⟨v, hv⟩ := (assertFinal_ok this).2 rfl
             exact ⟨v, hv, by simpa [passes] using (assertFinal_ok this).1 v hv⟩
-          · intro e' h hs
+          · intro e' h
             obtain ⟨j, _, hj⟩ := forM_err h
             rw [assertType_comp hinfo hfl hget hp] at hj
-            exact assertFinal_i_err ((hse hs).getItem (getItem_dict_s_some hp)) hj
+            exact assertFinal_i_err hj
 
 /-! ### `sum(int(fileinfo['length']) for fileinfo in info['files'])` -/
 
@@ -187,31 +184,29 @@ def fileLen : PyVal → Int
   | _ => 0
 
 theorem EntryFacts.fileLen {f : PyVal} (h : EntryFacts f) :
-    0 ≤ fileLen f ∧ (fileLen f).natAbs ≤ sumAbs f ∧
+    0 ≤ fileLen f ∧
       ∃ e l, f = .dict e ∧ PyVal.lookupStr "length" e = some l ∧ numVal? l = some (fileLen f) := by
-  obtain ⟨e, l, len, p, comps, rfl, hl, _, _, hnum, h0, hle, _⟩ := h
+  obtain ⟨e, l, len, p, comps, rfl, hl, _, _, hnum, h0, _⟩ := h
   have : Validate.fileLen (.dict e) = len := by simp [Validate.fileLen, hl, hnum]
   rw [this]
-  refine ⟨h0, ?_, e, l, rfl, hl, hnum⟩
-  have := sumAbs_lookupStr hl
-  simp only [sumAbs]; omega
+  exact ⟨h0, e, l, rfl, hl, hnum⟩
 
 theorem sumLengths_ok : ∀ (files : List PyVal) (acc : Int), (∀ x ∈ files, EntryFacts x) →
     sumLengths files acc = .ok (acc + (files.map fileLen).sum)
   | [], acc, _ => by simp [sumLengths, pure, Except.pure]
   | f :: t, acc, hf => by
-    obtain ⟨_, _, e, l, rfl, hl, hnum⟩ := (hf f (by simp)).fileLen
+    obtain ⟨_, e, l, rfl, hl, hnum⟩ := (hf f (by simp)).fileLen
     simp only [sumLengths, getE_ok (getItem_dict_s_some hl), bind, Except.bind, hnum]
     rw [sumLengths_ok t _ (fun x hx => hf x (by simp [hx]))]
     simp only [List.map_cons, List.sum_cons, Except.ok.injEq]; omega
 
 theorem totalLen_bounds : ∀ (files : List PyVal), (∀ x ∈ files, EntryFacts x) →
-    0 ≤ (files.map fileLen).sum ∧ ((files.map fileLen).sum).natAbs ≤ sumAbsList files
-  | [], _ => by simp [sumAbsList]
+    0 ≤ (files.map fileLen).sum
+  | [], _ => by simp
   | f :: t, hf => by
-    obtain ⟨h0, hle, _⟩ := (hf f (by simp)).fileLen
-    obtain ⟨h0', hle'⟩ := totalLen_bounds t (fun x hx => hf x (by simp [hx]))
-    simp only [List.map_cons, List.sum_cons, sumAbsList]
+    obtain ⟨h0, _⟩ := (hf f (by simp)).fileLen
+    have h0' := totalLen_bounds t (fun x hx => hf x (by simp [hx]))
+    simp only [List.map_cons, List.sum_cons]
     omega
 
 end Torf.Validate
